@@ -183,10 +183,23 @@ theorem atom_nonblank {a : Str} (h : AtomOk a) : isBlankPy a = false := by
   obtain ⟨c, cs, rfl, hc⟩ := atom_head h
   simp [isBlankPy, (atomChar_facts hc).sp]
 
-/-- the local part: atoms and dots up to the `@` -/
-theorem local_loop (as : List Str) (hne : as ≠ []) (hA : ∀ a ∈ as, AtomOk a) (R : Str) (cl : List Str) :
+/-- a character that ends the local part: `@` or `>` -/
+structure Term (t : Char) : Prop where
+  ae : atomends.contains t = true
+  lw : lws.contains t = false
+  nl : t ≠ '\n'
+  cr : t ≠ '\r'
+  par : t ≠ '('
+  dot : t ≠ '.'
+  quo : t ≠ '"'
+
+theorem term_at : Term '@' := ⟨by decide, by decide, by decide, by decide, by decide, by decide, by decide⟩
+theorem term_gt : Term '>' := ⟨by decide, by decide, by decide, by decide, by decide, by decide, by decide⟩
+
+/-- the local part: atoms and dots up to the `@` (or the `>` of an address without a domain) -/
+theorem local_loop (t : Char) (ht : Term t) (as : List Str) (hne : as ≠ []) (hA : ∀ a ∈ as, AtomOk a) (R : Str) (cl : List Str) :
     ∀ fuel (acc : List Str), (joinDot as).length + 1 < fuel → (∀ x ∈ acc.getLast?, isBlankPy x = false) →
-      addrSpecLoop fuel (joinDot as ++ '@' :: R) cl acc = (acc ++ pieces as, '@' :: R, cl) := by
+      addrSpecLoop fuel (joinDot as ++ t :: R) cl acc = (acc ++ pieces as, t :: R, cl) := by
   induction as with
   | nil => exact absurd rfl hne
   | cons a rest ih =>
@@ -195,7 +208,7 @@ theorem local_loop (as : List Str) (hne : as ≠ []) (hA : ∀ a ∈ as, AtomOk 
     obtain ⟨c, cs, hc, hcc⟩ := atom_head ha
     have hae := atom_ae ha
     obtain ⟨hl, hdot, hq, _, _, _, _, _, _, _⟩ := not_ae_facts (hae c (by rw [hc]; simp))
-    have hat : atomends.contains '@' = true := by decide
+    have hat : atomends.contains t = true := ht.ae
     have hdt : atomends.contains '.' = true := by decide
     have hpop : ∀ (l : List Str), (∀ x ∈ l.getLast?, isBlankPy x = false) → popWs l = l := by
       intro l hlst
@@ -206,21 +219,21 @@ theorem local_loop (as : List Str) (hne : as ≠ []) (hA : ∀ a ∈ as, AtomOk 
     obtain ⟨f1, rfl⟩ : ∃ f1, fuel = f1 + 1 := ⟨fuel - 1, by omega⟩
     cases rest with
     | nil =>
-      have e : joinDot [a] ++ '@' :: R = a ++ ('@' :: R) := rfl
+      have e : joinDot [a] ++ t :: R = a ++ (t :: R) := rfl
       rw [e, hc]
       simp only [List.cons_append, addrSpecLoop, hdot, hq, hae c (by rw [hc]; simp), Bool.false_eq_true, if_false]
       rw [← List.cons_append, ← hc, getAtom_run atomends a _ hae (by intro d hd; simp at hd; subst hd; exact hat)]
       simp only
-      rw [gotoNext_stop _ '@' R cl (by decide) (by decide) (by decide) (by decide)]
+      rw [gotoNext_stop _ t R cl ht.lw ht.nl ht.cr ht.par]
       simp only [List.isEmpty_nil, if_true]
       obtain ⟨f2, rfl⟩ : ∃ f2, f1 = f2 + 1 := ⟨f1 - 1, by simp [joinDot] at hf; rw [hc] at hf; simp at hf; omega⟩
-      have hat2 : ('@' : Char) ≠ '.' := by decide
-      have hat3 : ('@' : Char) ≠ '"' := by decide
+      have hat2 : t ≠ '.' := ht.dot
+      have hat3 : t ≠ '"' := ht.quo
       simp only [addrSpecLoop, hat2, hat3, hat, if_false, if_true]
       rw [hpop (acc ++ [a]) (by intro x hx; simp at hx; subst hx; exact atom_nonblank ha)]
       simp [pieces]
     | cons b bs =>
-      have e : joinDot (a :: b :: bs) ++ '@' :: R = a ++ ('.' :: (joinDot (b :: bs) ++ '@' :: R)) := by
+      have e : joinDot (a :: b :: bs) ++ t :: R = a ++ ('.' :: (joinDot (b :: bs) ++ t :: R)) := by
         simp [joinDot, List.append_assoc]
       have hlen : (joinDot (a :: b :: bs)).length = a.length + 1 + (joinDot (b :: bs)).length := by simp [joinDot]; omega
       rw [e, hc]
@@ -235,7 +248,7 @@ theorem local_loop (as : List Str) (hne : as ≠ []) (hA : ∀ a ∈ as, AtomOk 
       rw [hpop (acc ++ [a]) (by intro x hx; simp at hx; subst hx; exact atom_nonblank ha)]
       -- after the dot, the next atom starts at once
       obtain ⟨d, ds, hd, hdc⟩ := atom_head (hA b (by simp))
-      have hnext : joinDot (b :: bs) ++ '@' :: R = d :: (ds ++ (match bs with | [] => [] | _ => '.' :: joinDot bs) ++ '@' :: R) := by
+      have hnext : joinDot (b :: bs) ++ t :: R = d :: (ds ++ (match bs with | [] => [] | _ => '.' :: joinDot bs) ++ t :: R) := by
         cases bs with
         | nil => simp [joinDot, hd]
         | cons x xs => simp [joinDot, hd, List.append_assoc]
@@ -342,9 +355,10 @@ theorem strip_id_of (v : Str) (c d : Char) (m : Str) (hv : v = c :: (m ++ [d])) 
   simp [strip, h1, h2]
 
 theorem wf_parts (i : InputM) (h : wfM i = true) :
-    ∃ ws ls ds, ws ≠ [] ∧ (∀ w ∈ ws, WordOk w) ∧ i.name = joinSp ws ∧ ls ≠ [] ∧ ds ≠ [] ∧ (∀ a ∈ ls, AtomOk a) ∧
-      (∀ a ∈ ds, AtomOk a) ∧ i.address = joinDot ls ++ '@' :: joinDot ds := by
-  simp only [wfM, Bool.and_eq_true, Bool.not_eq_true', List.all_eq_true, Bool.or_eq_true, beq_iff_eq, decide_eq_true_eq] at h
+    ∃ ws ls, ws ≠ [] ∧ (∀ w ∈ ws, WordOk w) ∧ i.name = joinSp ws ∧ ls ≠ [] ∧ (∀ a ∈ ls, AtomOk a) ∧
+      (i.address = joinDot ls ∨
+       ∃ ds, ds ≠ [] ∧ (∀ a ∈ ds, AtomOk a) ∧ i.address = joinDot ls ++ '@' :: joinDot ds) := by
+  simp only [wfM, Bool.and_eq_true, Bool.not_eq_true', List.all_eq_true, Bool.or_eq_true, beq_iff_eq] at h
   obtain ⟨⟨_, hwords⟩, hlen, hparts⟩ := h
   have hatoms : ∀ p, (∀ a ∈ splitChar '.' p, a.isEmpty = false ∧ ∀ c ∈ a, atomChar c = true) →
       splitChar '.' p ≠ [] ∧ (∀ a ∈ splitChar '.' p, AtomOk a) ∧ p = joinDot (splitChar '.' p) := by
@@ -354,30 +368,37 @@ theorem wf_parts (i : InputM) (h : wfM i = true) :
       obtain ⟨h1, h2⟩ := hp a ha
       exact ⟨by intro e; rw [e] at h1; simp at h1, h2⟩
     · rw [joinDot_join, join_splitChar]
+  have hname : (∀ w ∈ splitChar ' ' i.name, WordOk w) := by
+    intro w hw
+    obtain ⟨h1, h2⟩ := hwords w hw
+    refine ⟨by intro e; rw [e] at h1; simp at h1, ?_⟩
+    intro c hc
+    rcases h2 c hc with h3 | h3
+    · exact Or.inl h3
+    · exact Or.inr h3
+  have hjoin := join_splitChar '@' i.address
   cases hp : splitChar '@' i.address with
   | nil => rw [hp] at hlen; simp at hlen
   | cons loc rest =>
     cases rest with
-    | nil => rw [hp] at hlen; simp at hlen
+    | nil =>
+      rw [hp] at hparts hjoin
+      obtain ⟨l1, l2, l3⟩ := hatoms loc (hparts loc (by simp)).2
+      refine ⟨splitChar ' ' i.name, splitChar '.' loc, splitChar_ne_nil ' ' i.name, hname, ?_, l1, l2, Or.inl ?_⟩
+      · rw [joinSp_join, join_splitChar]
+      · rw [← l3, ← hjoin]
+        simp [join]
     | cons dom rest2 =>
       cases rest2 with
       | cons _ _ => rw [hp] at hlen; simp at hlen
       | nil =>
-        rw [hp] at hparts
+        rw [hp] at hparts hjoin
         obtain ⟨l1, l2, l3⟩ := hatoms loc (hparts loc (by simp)).2
         obtain ⟨d1, d2, d3⟩ := hatoms dom (hparts dom (by simp)).2
-        refine ⟨splitChar ' ' i.name, splitChar '.' loc, splitChar '.' dom, splitChar_ne_nil ' ' i.name, ?_, ?_, l1, d1, l2, d2, ?_⟩
-        · intro w hw
-          obtain ⟨h1, h2⟩ := hwords w hw
-          refine ⟨by intro e; rw [e] at h1; simp at h1, ?_⟩
-          intro c hc
-          rcases h2 c hc with h3 | h3
-          · exact Or.inl h3
-          · exact Or.inr h3
+        refine ⟨splitChar ' ' i.name, splitChar '.' loc, splitChar_ne_nil ' ' i.name, hname, ?_, l1, l2,
+          Or.inr ⟨splitChar '.' dom, d1, d2, ?_⟩⟩
         · rw [joinSp_join, join_splitChar]
-        · have := join_splitChar '@' i.address
-          rw [hp] at this
-          rw [← l3, ← d3, ← this]
+        · rw [← l3, ← d3, ← hjoin]
           simp [join]
 
 theorem joinSp_head (w : Str) (rest : List Str) : ∃ T, joinSp (w :: rest) = w ++ T := by
@@ -390,26 +411,10 @@ theorem joinDot_head (w : Str) (rest : List Str) : ∃ T, joinDot (w :: rest) = 
   | nil => exact ⟨[], by simp [joinDot]⟩
   | cons v vs => exact ⟨'.' :: joinDot (v :: vs), rfl⟩
 
-/-- the first address of `name <address>` -/
-theorem first_addr (ws ls ds : List Str) (hws : ws ≠ []) (hW : ∀ w ∈ ws, WordOk w) (hls : ls ≠ []) (hds : ds ≠ [])
+/-- the addr-spec `local@domain` followed by `>` -/
+theorem addrspec_full (ls ds : List Str) (hls : ls ≠ []) (hds : ds ≠ [])
     (hL : ∀ a ∈ ls, AtomOk a) (hD : ∀ a ∈ ds, AtomOk a) :
-    firstAddress (joinSp ws ++ ' ' :: '<' :: (joinDot ls ++ '@' :: joinDot ds ++ ['>'])) =
-      .ok (some (joinSp ws, joinDot ls ++ '@' :: joinDot ds)) := by
-  -- the first characters of the name, of the local part and of the domain
-  obtain ⟨w0, wrest, hw0⟩ : ∃ w0 wrest, ws = w0 :: wrest := by
-    cases ws with
-    | nil => exact absurd rfl hws
-    | cons w0 wrest => exact ⟨w0, wrest, rfl⟩
-  have hW0 := hW w0 (by rw [hw0]; simp)
-  obtain ⟨c0, cs0, hc0⟩ : ∃ c0 cs0, w0 = c0 :: cs0 := by
-    cases hh : w0 with
-    | nil => exact absurd hh hW0.1
-    | cons c cs => exact ⟨c, cs, rfl⟩
-  have hpe0 := word_pe hW0 c0 (by rw [hc0]; simp)
-  obtain ⟨V', hV'⟩ : ∃ V', joinSp ws ++ ' ' :: '<' :: (joinDot ls ++ '@' :: joinDot ds ++ ['>']) = c0 :: V' := by
-    obtain ⟨T, hT⟩ := joinSp_head w0 wrest
-    rw [hw0, hT, hc0, List.append_assoc]
-    exact ⟨_, rfl⟩
+    getAddrSpec (joinDot ls ++ '@' :: joinDot ds ++ ['>']) [] = (joinDot ls ++ '@' :: joinDot ds, ['>'], []) := by
   obtain ⟨l0, lrest, hl0⟩ : ∃ l0 lrest, ls = l0 :: lrest := by
     cases ls with
     | nil => exact absurd rfl hls
@@ -428,10 +433,67 @@ theorem first_addr (ws ls ds : List Str) (hws : ws ≠ []) (hW : ∀ w ∈ ws, W
     obtain ⟨T, hT⟩ := joinDot_head d0 drest
     rw [hd0, hT, hb0, List.append_assoc]
     exact ⟨_, rfl⟩
+  obtain ⟨al, _, _, ap, _, _, an, ar, _, _⟩ := not_ae_facts (atomChar_facts hac0).ae
+  obtain ⟨bl, _, _, bp, _, _, bn, br, _, _⟩ := not_ae_facts (atomChar_facts hbc0).ae
+  unfold getAddrSpec
+  simp only
+  rw [hA', List.length_cons, gotoNext_stop _ a0 A' [] al an ar ap]
+  simp only
+  rw [← hA']
+  have e1 : joinDot ls ++ '@' :: joinDot ds ++ ['>'] = joinDot ls ++ '@' :: (joinDot ds ++ ['>']) := by simp
+  rw [e1, local_loop '@' term_at ls hls hL _ [] _ [] (by simp <;> omega) (by simp)]
+  simp only [List.nil_append]
+  rw [hD', List.length_cons, gotoNext_stop _ b0 D' [] bl bn br bp]
+  simp only
+  rw [← hD']
+  obtain ⟨i1, i2⟩ := domain_run ds hds hD [] [] ((joinDot ds ++ ['>']).length + 1) (by simp; omega)
+  rw [i1, i2]
+  have hdne : (joinDot ds).isEmpty = false := by
+    rw [hd0, hb0]
+    cases drest <;> simp [joinDot]
+  simp only [hdne, Bool.or_self, Bool.false_eq_true, if_false, pieces_flatten]
+
+/-- the addr-spec `local` (no domain) followed by `>` -/
+theorem addrspec_local (ls : List Str) (hls : ls ≠ []) (hL : ∀ a ∈ ls, AtomOk a) :
+    getAddrSpec (joinDot ls ++ ['>']) [] = (joinDot ls, ['>'], []) := by
+  obtain ⟨l0, lrest, hl0⟩ : ∃ l0 lrest, ls = l0 :: lrest := by
+    cases ls with
+    | nil => exact absurd rfl hls
+    | cons a as => exact ⟨a, as, rfl⟩
+  obtain ⟨a0, as0, ha0, hac0⟩ := atom_head (hL l0 (by rw [hl0]; simp))
+  obtain ⟨A', hA'⟩ : ∃ A', joinDot ls ++ ['>'] = a0 :: A' := by
+    obtain ⟨T, hT⟩ := joinDot_head l0 lrest
+    rw [hl0, hT, ha0, List.append_assoc]
+    exact ⟨_, rfl⟩
+  obtain ⟨al, _, _, ap, _, _, an, ar, _, _⟩ := not_ae_facts (atomChar_facts hac0).ae
+  unfold getAddrSpec
+  simp only
+  rw [hA', List.length_cons, gotoNext_stop _ a0 A' [] al an ar ap]
+  simp only
+  rw [← hA', local_loop '>' term_gt ls hls hL [] [] _ [] (by simp) (by simp)]
+  simp [pieces_flatten]
+
+/-- the first address of `name <addrspec>`, for any addr-spec text `A` that starts with an atom character and is read
+whole by `getAddrSpec` up to the `>` -/
+theorem first_addr_of (ws : List Str) (hws : ws ≠ []) (hW : ∀ w ∈ ws, WordOk w) (A : Str) (a0 : Char) (A' : Str)
+    (hA' : A ++ ['>'] = a0 :: A') (hac0 : atomChar a0 = true) (has : getAddrSpec (A ++ ['>']) [] = (A, ['>'], [])) :
+    firstAddress (joinSp ws ++ ' ' :: '<' :: (A ++ ['>'])) = .ok (some (joinSp ws, A)) := by
+  obtain ⟨w0, wrest, hw0⟩ : ∃ w0 wrest, ws = w0 :: wrest := by
+    cases ws with
+    | nil => exact absurd rfl hws
+    | cons w0 wrest => exact ⟨w0, wrest, rfl⟩
+  have hW0 := hW w0 (by rw [hw0]; simp)
+  obtain ⟨c0, cs0, hc0⟩ : ∃ c0 cs0, w0 = c0 :: cs0 := by
+    cases hh : w0 with
+    | nil => exact absurd hh hW0.1
+    | cons c cs => exact ⟨c, cs, rfl⟩
+  have hpe0 := word_pe hW0 c0 (by rw [hc0]; simp)
+  obtain ⟨V', hV'⟩ : ∃ V', joinSp ws ++ ' ' :: '<' :: (A ++ ['>']) = c0 :: V' := by
+    obtain ⟨T, hT⟩ := joinSp_head w0 wrest
+    rw [hw0, hT, hc0, List.append_assoc]
+    exact ⟨_, rfl⟩
   have hA0 := (atomChar_facts hac0)
-  have hB0 := (atomChar_facts hbc0)
   obtain ⟨al, adot, _, ap, _, aat, an, ar, agt, acol⟩ := not_ae_facts hA0.ae
-  obtain ⟨bl, _, _, bp, _, _, bn, br, _, _⟩ := not_ae_facts hB0.ae
   unfold firstAddress
   simp only
   -- skip nothing, read the phrase
@@ -446,31 +508,78 @@ theorem first_addr (ws ls ds : List Str) (hws : ws ≠ []) (hW : ∀ w ∈ ws, W
   -- the route address
   rw [hA', List.length_cons, gotoNext_stop _ a0 A' [] al an ar ap]
   simp only
-  have hrl : routeLoop ((a0 :: A').length + 1) (a0 :: A') [] false = (joinDot ls ++ '@' :: joinDot ds, [], []) := by
+  have hrl : routeLoop ((a0 :: A').length + 1) (a0 :: A') [] false = (A, [], []) := by
     simp only [routeLoop, Bool.false_eq_true, if_false, agt, aat, acol]
-    -- the addr-spec
-    have has : getAddrSpec (a0 :: A') [] = (joinDot ls ++ '@' :: joinDot ds, ['>'], []) := by
-      unfold getAddrSpec
-      simp only
-      rw [List.length_cons, gotoNext_stop _ a0 A' [] al an ar ap]
-      simp only
-      rw [← hA']
-      have e1 : joinDot ls ++ '@' :: joinDot ds ++ ['>'] = joinDot ls ++ '@' :: (joinDot ds ++ ['>']) := by simp
-      rw [e1, local_loop ls hls hL _ [] _ [] (by simp <;> omega) (by simp)]
-      simp only [List.nil_append]
-      rw [hD', List.length_cons, gotoNext_stop _ b0 D' [] bl bn br bp]
-      simp only
-      rw [← hD']
-      obtain ⟨i1, i2⟩ := domain_run ds hds hD [] [] ((joinDot ds ++ ['>']).length + 1) (by simp; omega)
-      rw [i1, i2]
-      have hdne : (joinDot ds).isEmpty = false := by
-        rw [hd0, hb0]
-        cases drest <;> simp [joinDot]
-      simp only [hdne, Bool.or_self, Bool.false_eq_true, if_false, pieces_flatten]
-    rw [has]
+    rw [← hA', has]
     simp
   rw [hrl]
   simp
+
+/-- the first address of `name <local@domain>` -/
+theorem first_addr (ws ls ds : List Str) (hws : ws ≠ []) (hW : ∀ w ∈ ws, WordOk w) (hls : ls ≠ []) (hds : ds ≠ [])
+    (hL : ∀ a ∈ ls, AtomOk a) (hD : ∀ a ∈ ds, AtomOk a) :
+    firstAddress (joinSp ws ++ ' ' :: '<' :: (joinDot ls ++ '@' :: joinDot ds ++ ['>'])) =
+      .ok (some (joinSp ws, joinDot ls ++ '@' :: joinDot ds)) := by
+  obtain ⟨l0, lrest, hl0⟩ : ∃ l0 lrest, ls = l0 :: lrest := by
+    cases ls with
+    | nil => exact absurd rfl hls
+    | cons a as => exact ⟨a, as, rfl⟩
+  obtain ⟨a0, as0, ha0, hac0⟩ := atom_head (hL l0 (by rw [hl0]; simp))
+  obtain ⟨A', hA'⟩ : ∃ A', (joinDot ls ++ '@' :: joinDot ds) ++ ['>'] = a0 :: A' := by
+    obtain ⟨T, hT⟩ := joinDot_head l0 lrest
+    rw [hl0, hT, ha0, List.append_assoc, List.append_assoc]
+    exact ⟨_, rfl⟩
+  exact first_addr_of ws hws hW _ a0 A' hA' hac0 (addrspec_full ls ds hls hds hL hD)
+
+/-- the first address of `name <local>` -/
+theorem first_addr_local (ws ls : List Str) (hws : ws ≠ []) (hW : ∀ w ∈ ws, WordOk w) (hls : ls ≠ [])
+    (hL : ∀ a ∈ ls, AtomOk a) :
+    firstAddress (joinSp ws ++ ' ' :: '<' :: (joinDot ls ++ ['>'])) = .ok (some (joinSp ws, joinDot ls)) := by
+  obtain ⟨l0, lrest, hl0⟩ : ∃ l0 lrest, ls = l0 :: lrest := by
+    cases ls with
+    | nil => exact absurd rfl hls
+    | cons a as => exact ⟨a, as, rfl⟩
+  obtain ⟨a0, as0, ha0, hac0⟩ := atom_head (hL l0 (by rw [hl0]; simp))
+  obtain ⟨A', hA'⟩ : ∃ A', joinDot ls ++ ['>'] = a0 :: A' := by
+    obtain ⟨T, hT⟩ := joinDot_head l0 lrest
+    rw [hl0, hT, ha0, List.append_assoc]
+    exact ⟨_, rfl⟩
+  exact first_addr_of ws hws hW _ a0 A' hA' hac0 (addrspec_local ls hls hL)
+
+/-- the maintainer of `name <A>` when the address parser returns `(name, A)` -/
+theorem maintainer_of (ws : List Str) (hws : ws ≠ []) (hW : ∀ w ∈ ws, WordOk w) (A : Str) (hAne : A.isEmpty = false)
+    (hfirst : firstAddress (joinSp ws ++ ' ' :: '<' :: (A ++ ['>'])) = .ok (some (joinSp ws, A))) :
+    Model.Addr.maintainer (joinSp ws ++ " <".toList ++ A ++ ['>']) =
+      .ok (joinSp ws, some A, joinSp ws ++ " <".toList ++ A ++ ['>']) := by
+  have hval : joinSp ws ++ " <".toList ++ A ++ ['>'] = joinSp ws ++ ' ' :: '<' :: (A ++ ['>']) := by
+    show joinSp ws ++ [' ', '<'] ++ _ ++ _ = _
+    simp [List.append_assoc]
+  obtain ⟨w0, wrest, hw0⟩ : ∃ w0 wrest, ws = w0 :: wrest := by
+    cases ws with
+    | nil => exact absurd rfl hws
+    | cons w0 wrest => exact ⟨w0, wrest, rfl⟩
+  have hW0 := hW w0 (by rw [hw0]; simp)
+  obtain ⟨c0, cs0, hc0⟩ : ∃ c0 cs0, w0 = c0 :: cs0 := by
+    cases hh : w0 with
+    | nil => exact absurd hh hW0.1
+    | cons c cs => exact ⟨c, cs, rfl⟩
+  have hsp0 : isSpace c0 = false := by
+    rcases hW0.2 c0 (by rw [hc0]; simp) with h | h
+    · exact (atomChar_facts h).sp
+    · subst h; decide
+  obtain ⟨T, hT⟩ := joinSp_head w0 wrest
+  have hstrip : strip (joinSp ws ++ " <".toList ++ A ++ ['>']) = joinSp ws ++ " <".toList ++ A ++ ['>'] := by
+    apply strip_id_of _ c0 '>' (cs0 ++ T ++ " <".toList ++ A) _ hsp0 (by decide)
+    rw [hw0, hT, hc0]
+    simp [List.append_assoc]
+  have hne : (joinSp ws).isEmpty = false := by
+    rw [hw0, hT, hc0]; rfl
+  unfold Model.Addr.maintainer
+  simp only [hstrip]
+  unfold parseaddr
+  rw [hval, hfirst]
+  simp only [hne, hAne, Bool.false_eq_true, if_false]
+  rw [← hval, hstrip]
 
 /-- **the maintainer clause for every name and address of the grammar** -/
 theorem soundM (i : InputM) : holdsOnM i (modelM i) = true := by
@@ -478,44 +587,26 @@ theorem soundM (i : InputM) : holdsOnM i (modelM i) = true := by
   cases hw : wfM i with
   | false => rfl
   | true =>
-    obtain ⟨ws, ls, ds, hws, hW, hn, hls, hds, hL, hD, ha⟩ := wf_parts i hw
-    have hval : i.name ++ " <".toList ++ i.address ++ ['>'] =
-        joinSp ws ++ ' ' :: '<' :: (joinDot ls ++ '@' :: joinDot ds ++ ['>']) := by
-      rw [hn, ha]
-      show joinSp ws ++ [' ', '<'] ++ _ ++ _ = _
-      simp [List.append_assoc]
-    -- the value is its own strip: it starts with a character of a word and ends with `>`
-    obtain ⟨w0, wrest, hw0⟩ : ∃ w0 wrest, ws = w0 :: wrest := by
-      cases ws with
-      | nil => exact absurd rfl hws
-      | cons w0 wrest => exact ⟨w0, wrest, rfl⟩
-    have hW0 := hW w0 (by rw [hw0]; simp)
-    obtain ⟨c0, cs0, hc0⟩ : ∃ c0 cs0, w0 = c0 :: cs0 := by
-      cases hh : w0 with
-      | nil => exact absurd hh hW0.1
-      | cons c cs => exact ⟨c, cs, rfl⟩
-    have hsp0 : isSpace c0 = false := by
-      rcases hW0.2 c0 (by rw [hc0]; simp) with h | h
-      · exact (atomChar_facts h).sp
-      · subst h; decide
-    obtain ⟨T, hT⟩ := joinSp_head w0 wrest
-    have hstrip : strip (i.name ++ " <".toList ++ i.address ++ ['>']) = i.name ++ " <".toList ++ i.address ++ ['>'] := by
-      apply strip_id_of _ c0 '>' (cs0 ++ T ++ " <".toList ++ i.address) _ hsp0 (by decide)
-      rw [hn, hw0, hT, hc0]
-      simp [List.append_assoc]
-    have hne : (joinSp ws).isEmpty = false := by
-      rw [hw0, hT, hc0]; rfl
-    have hae : (joinDot ls ++ '@' :: joinDot ds).isEmpty = false := by
-      cases joinDot ls <;> rfl
-    unfold modelM Model.Addr.maintainer
-    simp only [hstrip]
-    unfold parseaddr
-    rw [hval, first_addr ws ls ds hws hW hls hds hL hD]
-    simp only [hne, hae, Bool.false_eq_true, if_false]
-    rw [← hn, ← ha, hstrip]
-    simp
+    obtain ⟨ws, ls, hws, hW, hn, hls, hL, haddr⟩ := wf_parts i hw
+    have hlne : (joinDot ls).isEmpty = false := by
+      obtain ⟨l0, lrest, hl0⟩ : ∃ l0 lrest, ls = l0 :: lrest := by
+        cases ls with
+        | nil => exact absurd rfl hls
+        | cons a as => exact ⟨a, as, rfl⟩
+      obtain ⟨a0, as0, ha0, _⟩ := atom_head (hL l0 (by rw [hl0]; simp))
+      obtain ⟨T, hT⟩ := joinDot_head l0 lrest
+      rw [hl0, hT, ha0]; rfl
+    unfold modelM
+    rcases haddr with ha | ⟨ds, hds, hD, ha⟩
+    · rw [hn, ha, maintainer_of ws hws hW _ hlne (first_addr_local ws ls hws hW hls hL)]
+      simp
+    · have hae : (joinDot ls ++ '@' :: joinDot ds).isEmpty = false := by
+        cases joinDot ls <;> rfl
+      rw [hn, ha, maintainer_of ws hws hW _ hae (first_addr ws ls ds hws hW hls hds hL hD)]
+      simp
 
 /-- the grammar is inhabited by ordinary maintainers -/
 example : wfM ⟨"Jane Q. O'Doe".toList, "jane.doe+deb@lists.example.org".toList⟩ = true := by decide +kernel
+example : wfM ⟨"Build Daemon".toList, "buildd".toList⟩ = true := by decide +kernel
 
 end Props.C19M
